@@ -598,6 +598,51 @@ def abort_sites(cfg):
     return out
 
 
+def option_field_some_targets(cfg, field_names):
+    """Blocks entered on the `Some` edge of a test of an Option-typed field named in field_names (however the test is
+    written: `if let Some(x) = s.f`, `match s.f`, `let Some(x) = s.f else { return }`)."""
+    out = []
+    defs = cfg.defs()
+    for i, b in enumerate(cfg.blocks):
+        t = b["term"]
+        if t["t"] != "Switch":
+            continue
+        p = op_place(t["x"])
+        if p is None or not isinstance(p, int):
+            continue
+        ds = defs.get(p, [])
+        if len(ds) != 1 or ds[0][0] != "stmt" or ds[0][3].get("r") != "Discr":
+            continue
+        if not (ds[0][3].get("adt") or "").endswith("Option"):
+            continue
+        pl = ds[0][3].get("p")
+        names = set()
+        seen = set()
+        while pl is not None:
+            if isinstance(pl, dict):
+                names |= {x.get("f") for x in pl.get("p", []) if isinstance(x, dict) and "f" in x}
+                root = pl.get("l")
+            else:
+                root = pl
+            if root in seen:
+                break
+            seen.add(root)
+            # follow plain copies / borrows of the field into a temporary
+            rd = defs.get(root, [])
+            pl = None
+            if len(rd) == 1 and rd[0][0] == "stmt" and rd[0][3].get("r") in ("Use", "Ref"):
+                src = rd[0][3].get("x") if rd[0][3].get("r") == "Use" else {"c": rd[0][3].get("p")}
+                pl = op_place(src) if isinstance(src, dict) and ("c" in src or "m" in src) else None
+        if not (names & set(field_names)):
+            continue
+        for v, tgt in zip(t["vals"], t["to"]):
+            if v == 1:
+                out.append(tgt)
+        if 1 not in t["vals"] and 0 in t["vals"]:
+            out.append(t["to"][-1])
+    return out
+
+
 def bounded_by_bool_cast(cfg, ops):
     """Value-range fact used to discharge Overflow(Add/Sub/Mul): one operand is `<bool> as <int>` (0 or 1, possibly
     through copies) and the other a constant of magnitude < 64, so the result fits every integer type."""
